@@ -405,7 +405,7 @@ pub fn replay(sub: &str, bytes: &[u8], col: &mut Collector) -> Result<(), Failur
 
 pub fn run(tier: &str, seed: u64) -> i32 {
     let mut rep = Report::new("C03", tier, seed);
-    rep.rule = "(statement, proof) pairs: honest; honest procedure on a bad witness; honest then one field edited through the mirror (point := identity / random / negated / +B / copy, scalar := 0 / ±1 / +δ / random / a↔b); shape edits (rounds dropped / appended / swapped, |L| ≠ |R|, L_j↔R_j); relation-satisfying proofs with an identity mandatory point obtained from the real prover with one scripted RNG draw forced to 0 on zero-gate circuits. Oracle: clean-room unbatched verifier (a)∧(b)∧(c) with explicit folding, challenges by position from the real run's log. Non-trivial = reference accepts or rejects by exactly one of (a), (b), (c); distinct = (program, edit)".into();
+    rep.rule = "(statement, proof) pairs: honest; honest procedure on a bad witness; honest then one field edited through the mirror (point := identity / random / negated / +B / copy, scalar := 0 / ±1 / +δ / random / a↔b); shape edits (rounds dropped / appended / swapped, |L| ≠ |R|, L_j↔R_j); relation-satisfying proofs with an identity mandatory point obtained from the real prover with one scripted RNG draw forced to 0 on zero-gate circuits; proofs made by the harness's own clean-room prover (own Fiat–Shamir, own inner-product argument), honest or deviating in exactly one place (T_i commits to t_i+δ with t_x consistent, ẽ+δ, t̃+δ, l+δ·e_i inside the IPP, zero padding, masking mismatch) so that exactly one term of the relations is violated. Oracle: clean-room unbatched verifier (a)∧(b)∧(c) with explicit folding, challenges by position from the real run's log. Non-trivial = reference accepts or rejects by exactly one of (a), (b), (c); distinct = (program, edit)".into();
     rep.assumptions = vec![
         "challenge bytes -> scalar conversion (32 bytes -> ChaCha -> uniform field element) is part of the wire protocol and replicated".into(),
         "the order of challenges y, z, u, x, w, u_1..u_k after the closure challenges is taken from the protocol (C06 checks the schedule itself)".into(),
